@@ -31,6 +31,28 @@ def run(ck: Check, repo: Repo) -> None:
     _forward(ck, repo)
     _reeval(ck, repo)
     _mask(ck, repo)
+    ck.rule("C16.9", "the distribution wrapper of a stochastic actor is rebuilt as it was built: the EvolvableDistribution created in recreate_network receives every "
+                     "constructor argument the one created in __init__ received (action space, std initialisation, squash_output, device), from the stored attributes")
+    _wrapper_rebuild(ck, repo)
+    ck.rule("C16.10", "in training mode the action handed out is the sampled one: get_action clips / rescales a continuous action only under `not self.training` "
+                      "(obligations of C14.3, shared) — otherwise the stored action differs from the one its log-probability belongs to")
+    from dataclasses import replace
+    from . import c14
+    sub14 = Check("C14", ck.tier, ck.repo_root)
+    sub14.known = []
+    for rid in ("C14.3", "C14.5"):
+        sub14.rule(rid, "")
+    err14 = None
+    try:
+        c14._policy_gradient(sub14, repo)
+    except AnalysisError as e:  # keep what was established before the shared rule lost an anchor
+        err14 = e
+    taken = [replace(o, rule="C16.10") for o in sub14.obs if o.rule == "C14.3" and o.status != "known"]
+    ck.obs.extend(taken)
+    if err14 is not None:
+        raise err14
+    if len(taken) < 8:
+        raise AnalysisError(f"C16.10: only {len(taken)} obligations taken over from C14.3")
     ck.rule("C16.8", "IPPO: the masks of a shared-policy group reach the distribution row-aligned with its logits (collected per agent, combined agent-major): "
                      "otherwise a row is masked with another (agent, environment) pair's mask and masked actions get non-zero probability")
     from .c14 import _ippo_masks
@@ -275,12 +297,13 @@ def _action_axis_kept(ck: Check, repo: Repo) -> None:
                 if not (isinstance(v, ast.Call) and last_attr(v) in ("unsqueeze", "reshape", "view") and dotted(v.func.value) == arg.id):
                     return False
                 gs = " ".join(ast.unparse(g) for g, pol, _ in cfg.guards_at(d) if pol)
-                return "spaces.Box" in gs and ".shape == (1,)" in gs.replace("(\n", "(")
+                # every action-space kind whose actions lose their only component axis under squeeze(): Box(1,), MultiBinary(1), MultiDiscrete of length 1
+                return "spaces.Box" in gs and ".shape == (1,)" in gs.replace("(\n", "(") and "spaces.MultiBinary" in gs and "spaces.MultiDiscrete" in gs
             squeezed = any(dimless_squeeze(v) for _, v in vals)
             # a re-adding definition reaches the call only if it lies between the squeeze and the call
             restored = any(readds_axis(d, v) for d, v in vals)
             ck.ob("C16.6", fn, c, (not squeezed) or restored,
-                  f"{q}: stored actions are re-evaluated with their action axis (a dimension-less squeeze() is undone for one-dimensional Box actions before the log-probability is taken)",
+                  f"{q}: stored actions are re-evaluated with their action axis (a dimension-less squeeze() is undone for single-component actions — Box(1,), MultiBinary(1), MultiDiscrete of length 1 — before the log-probability is taken)",
                   detail=f"`{arg.id}` reaches `{short(c, 50)}` as `{arg.id}.squeeze()` without the Box / shape == (1,) guarded unsqueeze in between: for Box(1,) actions of shape "
                          "(B,) Normal.log_prob broadcasts against the (B, 1) mean to (B, B) and the sum over components adds B unrelated terms",
                   construct=f"{q}: action axis at {short(c, 50)}")
@@ -322,6 +345,50 @@ def _reeval(ck: Check, repo: Repo) -> None:
                                       for d in defs if d.kind == "stmt" for x in ast.walk(d.ast)), "IPPO: the forward pass uses the preprocessed minibatch observations")
 
 
+def _wrapper_rebuild(ck: Check, repo: Repo) -> None:
+    sa = repo.cls(AM, "StochasticActor")
+    dist = repo.cls(DM, "EvolvableDistribution")
+    sig = dist.methods["__init__"].named_params[1:]
+    init, rec = sa.methods["__init__"], sa.methods["recreate_network"]
+
+    def bound(fn: Fn) -> List[Dict[str, ast.AST]]:
+        out = []
+        for c in calls_in(fn.node):
+            if isinstance(c.func, ast.Name) and c.func.id == "EvolvableDistribution":
+                b: Dict[str, ast.AST] = {}
+                for i, a in enumerate(c.args):
+                    if i < len(sig):
+                        b[sig[i]] = a
+                for k in c.keywords:
+                    if k.arg:
+                        b[k.arg] = k.value
+                out.append(b)
+        return out
+    bi, br = bound(init), bound(rec)
+    ck.ob("C16.9", rec, rec.node, len(bi) == 1 and len(br) == 1, "StochasticActor builds one distribution wrapper in __init__ and one in recreate_network",
+          detail=f"{len(bi)} / {len(br)}", construct="StochasticActor: distribution wrapper sites")
+    if len(bi) != 1 or len(br) != 1:
+        return
+    params = set(init.named_params)
+    for prm in sig:
+        if prm == "network":
+            continue
+        if prm not in bi[0]:
+            continue
+        v_i = bi[0][prm]
+        v_r = br[0].get(prm)
+        want = None
+        if isinstance(v_i, ast.Name) and v_i.id in params:
+            want = f"self.{v_i.id}"
+        elif dotted(v_i).startswith("self."):
+            want = dotted(v_i)
+        ck.ob("C16.9", rec, rec.node, v_r is not None and (want is None or dotted(v_r) == want),
+              f"StochasticActor.recreate_network passes `{prm}` to the rebuilt distribution wrapper as __init__ did",
+              detail=f"__init__: {prm}={short(v_i, 40)}; recreate_network: {prm}={short(v_r, 40) if v_r is not None else 'not passed (constructor default)'} — after a latent mutation the head "
+                     "no longer squashes / scales as the actor reports (actions outside the bounds, no tanh correction in the log-probability)",
+              construct=f"StochasticActor: wrapper argument {prm}")
+
+
 def _mask(ck: Check, repo: Repo) -> None:
     am = repo.fn(DM, "apply_action_mask_discrete")
     rets = [n for n in walk_no_nested(am.node) if isinstance(n, ast.Return)]
@@ -359,6 +426,8 @@ _DF = "agilerl/networks/distributions.py"
 _AF = "agilerl/networks/actors.py"
 _PF = "agilerl/algorithms/ppo.py"
 VARIANTS = [
+    ("stochastic-actor-rebuild-drops-squash", "agilerl/networks/actors.py", "            action_std_init=self.action_std_init,\n            squash_output=self.squash_output,\n            device=self.device,", "            action_std_init=self.action_std_init,\n            device=self.device,", "fire", "C16.9"),
+    ("ippo-clips-in-training-mode", "agilerl/algorithms/ippo.py", "            if not self.training and isinstance(agent_space, spaces.Box):", "            if isinstance(agent_space, spaces.Box):", "fire", "C16.10"),
     ("bernoulli-no-sum", _DF, "        return distribution.log_prob(action).sum(dim=1)\n\n    def entropy(self, distribution: Bernoulli)", "        return distribution.log_prob(action)\n\n    def entropy(self, distribution: Bernoulli)", "fire", "C16.2"),
     ("bernoulli-sum-batch", _DF, "        return distribution.entropy().sum(dim=1)\n\n\nclass CategoricalHandler", "        return distribution.entropy().sum(dim=0)\n\n\nclass CategoricalHandler", "fire", "C16.2"),
     ("categorical-summed", _DF, "        return distribution.log_prob(action)\n\n    def entropy(self, distribution: Categorical)", "        return distribution.log_prob(action).sum()\n\n    def entropy(self, distribution: Categorical)", "fire", "C16.2"),
@@ -377,6 +446,7 @@ VARIANTS = [
     ("mask-rows-without-legal-entry-unmasked", _DF, "    return torch.where(mask, logits, torch.full_like(logits, -1e8).to(logits.device))", "    mask = mask | ~mask.any(dim=-1, keepdim=True)\n    return torch.where(mask, logits, torch.full_like(logits, -1e8).to(logits.device))", "fire", "C16.7"),
     ("ippo-masks-hstack", "agilerl/algorithms/ippo.py", "action_masks[homo_id] = torch.Tensor(action_masks[homo_id])", "action_masks[homo_id] = torch.from_numpy(np.hstack(action_masks[homo_id]))", "fire", "C16.8"),
     ("ippo-box1-unsqueeze-after-logprob", "agilerl/algorithms/ippo.py", "                        batch_actions = batch_actions.unsqueeze(1)\n\n                    log_prob = actor.action_log_prob(batch_actions)\n", "                        pass\n\n                    log_prob = actor.action_log_prob(batch_actions)\n                    if isinstance(action_space, spaces.Box) and action_space.shape == (1,):\n                        batch_actions = batch_actions.unsqueeze(1)\n", "fire", "C16.6"),
+    ("ppo-axis-restored-for-box-only", "agilerl/algorithms/ppo.py", "                        or (\n                            isinstance(self.action_space, spaces.MultiBinary)\n                            and self.action_space.n == 1\n                        )\n", "", "fire", "C16.6"),
     ("ppo-box1-axis-not-restored", "agilerl/algorithms/ppo.py", "                        batch_actions = batch_actions.unsqueeze(1)\n\n                    log_prob, entropy, value = self.evaluate_actions(", "                        pass\n\n                    log_prob, entropy, value = self.evaluate_actions(", "fire", "C16.6"),
     ("mask-weak-constant", _DF, "torch.full_like(logits, -1e8)", "torch.full_like(logits, -10.0)", "fire", "C16.7"),
     ("mask-inverted", _DF, "return torch.where(mask, logits, torch.full_like(logits, -1e8).to(logits.device))", "return torch.where(mask, torch.full_like(logits, -1e8).to(logits.device), logits)", "fire", "C16.7"),
